@@ -126,8 +126,14 @@ def canon_model(line):
     return " | ".join(parts)
 
 
+OP_TEXT = {}          # op kind -> text function, for the op kinds other stages add (harness/vnet_contend.py)
+EXECUTORS = {}        # program header key -> executor class (subclass of XExec) that runs programs carrying that key
+
+
 def op_text(op):
     k = op[0]
+    if k in OP_TEXT:
+        return OP_TEXT[k](op)
     N = lambda b: vc.UNKNOWN if b < 0 else (vc.NAMES[b] if b < len(vc.NAMES) else FOREIGN)
     if k in BASE_KINDS:
         return vc.op_text(op)
@@ -171,8 +177,11 @@ class XExec(vc.Exec):
     """one extended program on one fresh network (base ops are executed and
     judged by vnetcase.Exec.step, then re-observed in the extended format)"""
 
-    def __init__(self, nodes, max_qubits, max_regs):
-        super().__init__(nodes, max_qubits, max_regs, ideal2=False, lenient=False)
+    def __init__(self, nodes, max_qubits, max_regs, lenient=False):
+        # lenient (header key "lenient": 1, only the directed / generated C07 register-capacity programs of
+        # harness/vnet_regcap.py): a held-count or joint-state mismatch does not end the program, so that the creates /
+        # arrivals that probe the node count after a refused in-register create are still executed and judged
+        super().__init__(nodes, max_qubits, max_regs, ideal2=False, lenient=lenient)
         self.r = {}              # register label -> dict(node, ref, num, obj, state)  state: free | used | deleted
         self.nrlabels = 0
         self.xsnap = xsnap_str(self.net, self.book)
@@ -627,7 +636,7 @@ class XExec(vc.Exec):
                 fail("xatomic", "%s:%s:state-changed" % (k, cause or "error"),
                      "%s returned %s but changed the state: before %s %s after %s %s; queues: %d appended, %d removed" % (
                          what_op, cls, pre_snap, vc._deep_text(pre_deep), post_snap, vc._deep_text(post_deep), len(app), len(pop)),
-                     hard=True)
+                     hard=not self.lenient)
             if pre_free and not net.all_locks_free():
                 fail("xatomic", "%s:%s:lock-held" % (k, cause or "error"), "%s returned %s and left locks held: %s" % (
                     what_op, cls, net.lock_flags()), hard=True)
@@ -771,11 +780,38 @@ class XExec(vc.Exec):
                 self.qlog[key]["pop"] += 1
         self._track_regs(by_client=(k == "delreg"))
 
+        # ---- C07 (in-register creates): a create succeeds iff the node holds fewer than its maximum -- given that the
+        # register exists and has room, which are refusals for another reason than node capacity
+        if k == "inreg":
+            a_ = self.r[op[1]]["node"]
+            if cls is not None and exp is None and cls in ("noQubitError", "quantumError"):
+                fail("capacity", "inreg:refused-below-max", "%s refused with %s although %s holds %d qubits (max %d) and the "
+                     "register has room (%d of %d)" % (what_op, cls, names[a_], ref.count[a_], self.mq, pre["active"],
+                                                       self.r[op[1]]["obj"].maxQubits))
+            elif cls is None and cause == "full":
+                fail("capacity", "inreg:full:not-refused", "%s accepted although %s already holds %d qubits (max %d)" % (
+                    what_op, names[a_], ref.count[a_] - (0 if not_refused else 1), self.mq))
         # ---- population accounting
         post_held = [len(net.nodes[n].virtQubits) for n in names]
-        if post_held != ref.count and not not_refused:
+        miscount = [x - y for x, y in zip(post_held, ref.count)]
+        if post_held != ref.count and not not_refused and (not self.lenient or miscount != self.miscount):
             fail("population", "%s:%s:population" % (k, "refused" if cls else "done"),
-                 "%s: held per node %s -> %s, accounting says %s" % (what_op, pre_held, post_held, ref.count), hard=True)
+                 "%s: held per node %s -> %s, accounting says %s" % (what_op, pre_held, post_held, ref.count),
+                 hard=not self.lenient)
+        # ---- C07: the node's own list of held qubits against the independent counter (a refused create never consumes
+        # a slot; see the same oracle for the base ops in vnetcase.Exec.step)
+        if miscount != self.miscount and not not_refused:
+            for j, (d0, d1) in enumerate(zip(self.miscount, miscount)):
+                if d1 != d0:
+                    fail("capacity", "held-count-mismatch:%s:%s" % (k, cause or ("refused" if cls else "done")),
+                         "%s: %s lists %d held qubits (max %d), the independent count says %d (%s): held per node %s -> %s, "
+                         "counted %s" % (what_op, names[j], post_held[j], self.mq, ref.count[j],
+                                         "an entry stays behind; the capacity it occupies is not reusable" if d1 > d0 else
+                                         "an entry is missing; the node can exceed its maximum", pre_held, post_held, ref.count),
+                         hard=not self.lenient)
+                    break
+        if not not_refused:
+            self.miscount = miscount
         # ---- well-formedness of the real graph (skipped after the deliberate misuse probe, which the model mirrors)
         if self.probe is None and not not_refused:
             for kind, key, text in self._wf():
@@ -784,7 +820,7 @@ class XExec(vc.Exec):
             msg = why if rows is None else U.check_generators(ref.n(), rows, ref.v)
             if msg is not None:
                 fail("reference", "state:%s" % k, "after %s the joint state differs from the single register: %s (registers: %s)" % (
-                    what_op, msg, vc._deep_text(post_deep)), hard=True)
+                    what_op, msg, vc._deep_text(post_deep)), hard=not self.lenient)
         if self.probe is not None and not self.dead:
             self.dead = "probe:" + self.probe
         self.xsnap, self.deep, self.qpre = post_snap, post_deep, post_q
@@ -826,7 +862,11 @@ class XExec(vc.Exec):
 
 
 def run_program(prog):
-    ex = XExec(prog["nodes"], prog["max_qubits"], prog["max_regs"])
+    cls = XExec
+    for key, c in EXECUTORS.items():
+        if prog.get(key):
+            cls = c
+    ex = cls(prog["nodes"], prog["max_qubits"], prog["max_regs"], lenient=prog.get("lenient", False))
     for op in prog["ops"]:
         if ex.dead:
             break
@@ -1120,6 +1160,9 @@ def _out(ex, tag):
             "ops": [r["op"] for r in ex.records]}
 
 
+GENERATORS = {}      # job kind -> generator (seed, cov) -> XExec; "gen" = gen_program (other stages register theirs)
+
+
 def run_job(job, cov):
     if job[0] == "static":
         ex = run_program(job[2])
@@ -1127,8 +1170,8 @@ def run_job(job, cov):
             cov[r["cell"]] = cov.get(r["cell"], 0) + 1
         drain(ex, cov)
         return _out(ex, job[1])
-    ex = gen_program(job[1], cov)
-    return _out(ex, "gen")
+    ex = GENERATORS.get(job[0], gen_program)(job[1], cov)
+    return _out(ex, job[0])
 
 
 def _run_chunk(jobs):
@@ -1283,10 +1326,11 @@ OWN_X_BY_PROP = {
     # which oracle kinds of this stage are the calling check's own violations: (on the extended ops, on base ops)
     "C02": (OWN_X, None),                             # None: vc.OWN["C02"] | {"queue"}, see below
     "C05": ({"xatomic", "xrefuse"}, None),            # refusals of the extended ops: atomic, documented class
+    "C07": ({"capacity"}, None),                      # in-register creates against the plain counter (harness/vnet_regcap.py)
 }
 
 
-def stage(ctx, res, prop="C02", n_gen=None):
+def stage(ctx, res, prop="C02", n_gen=None, jobs=None, rule=None, label="x-stage"):
     """run the extended stage and fold its verdicts into `res` (the Result of the calling check: C02, or C05 which
     judges the refusals of the extended operations — kinds xatomic / xrefuse — as its own)"""
     core.scratch_repo()
@@ -1299,10 +1343,11 @@ def stage(ctx, res, prop="C02", n_gen=None):
         outs = [run_job(("static", "replay", prog), {})]
     else:
         rng = random.Random(ctx.rng.getrandbits(48))
-        jobs = [("static", name, p) for name, p in corpus()]
-        jobs += [("gen", rng.getrandbits(48)) for _ in range(ctx.scale(85, 4000) if n_gen is None else n_gen)]
+        if jobs is None:
+            jobs = [("static", name, p) for name, p in corpus()]
+            jobs += [("gen", rng.getrandbits(48)) for _ in range(ctx.scale(85, 4000) if n_gen is None else n_gen)]
         outs = run_jobs(jobs, ctx.thorough)
-    res.rule = (res.rule + " || " if res.rule else "") + RULE
+    res.rule = (res.rule + " || " if res.rule else "") + (rule or RULE)
     cand, nops, probes = {}, 0, 0
     for o in outs:
         nops += len(o["recs"])
@@ -1343,5 +1388,5 @@ def stage(ctx, res, prop="C02", n_gen=None):
         small, what2 = shrink(p, kind, key, budget_s=12.0 / max(1, len(cand)) + 3)
         res.violation(key, (what2 or what) + (" (+%d more failing programs with this key)" % (count - 1) if count > 1 else ""),
                       {"program": small, "text": prog_text(small), "kind": kind})
-    res.notes.append("x-stage: real ops executed: %d in %d programs, %.1fs" % (nops, len(outs), time.time() - t0))
+    res.notes.append("%s: real ops executed: %d in %d programs, %.1fs" % (label, nops, len(outs), time.time() - t0))
     return res
